@@ -327,7 +327,7 @@ const depthLimit = 3
 func Check(r *core.Run) error {
 	r.SetRule("TLC checks the resolver machine (Key, cache lookup, AddKey, children, Store, Delete) on every reference graph of N components and depth limit L: every event is accepted by the acceptor, contexts end balanced, rings end in 'infinite recursion' " +
 		"and over-long chains in 'depth limit'. Conformance: TLC enumerates (kind, shape, n) cases over 8 component kinds x {chain, cross-file chain with same-named decoys in the root, ring, over-deep chain}; each is rendered as a referencing document " +
-		"used from two sites with different context (header names, paths) and as its inlined twin; parser.Parse outcomes and canonical projections of the parsed APIs (Ref/locations dropped) are compared (T1), the expanded document is re-parsed (T4), " +
+		"used from two sites with different context (header names, paths) and as its inlined twin; parser.Parse outcomes and canonical projections of the parsed APIs (Ref/locations dropped) are compared (T1), the expanded document is re-parsed (T4; also for every corpus document that parses), " +
 		"and the hook events of build tag verif (AddKey/Delete/CacheStore/CacheHit) of these parses and of the corpus specs are validated against the acceptor (T3, cache discipline). Non-trivial = every case; distinct = (kind, shape, n, outcome).")
 	if !installHooks(nil) {
 		return fmt.Errorf("%w: vcheck was built without -tags verif: hook traces unavailable", tlc.ErrInfra)
@@ -404,7 +404,7 @@ func Check(r *core.Run) error {
 	}
 	nCases := len(col.lines)
 	// corpus: hook discipline only
-	nCorpus := 0
+	nCorpus, nExpanded := 0, 0
 	for _, f := range corpusFiles() {
 		data, err := os.ReadFile(f)
 		if err != nil || len(data) == 0 {
@@ -415,17 +415,34 @@ func Check(r *core.Run) error {
 			continue
 		}
 		col.mark("begin", 1000)
+		var api *openapi.API
 		func() {
 			defer func() { recover() }()
 			u := &url.URL{Scheme: "file", Path: f}
-			parser.Parse(spec, parser.Settings{RootURL: u, File: location.NewFile(filepath.Base(f), f, data), External: dirResolver(filepath.Dir(f))})
+			api, _ = parser.Parse(spec, parser.Settings{RootURL: u, File: location.NewFile(filepath.Base(f), f, data), External: dirResolver(filepath.Dir(f))})
 		}()
 		col.mark("end", 0)
 		note("corpus " + filepath.Base(f))
 		nCorpus++
+		// T4 on the corpus: the dereferenced spec ogen emits parses back to an equivalent API
+		if api != nil {
+			installHooks(nil)
+			pr := Project(api)
+			pe := reparseExpanded(api)
+			installHooks(col.sink)
+			b, _ := json.Marshal(M{"k": "expand", "peOutcome": pe.outcome, "pr": Hash(pr), "pe": Hash(pe.proj), "ctx": 0, "loc": "", "ptr": "", "kind": "", "depthLeft": 0, "stack": 0, "limit": 0})
+			col.lines = append(col.lines, b)
+			d := fmt.Sprintf("corpus %s: expanded+reparsed -> %s %s", filepath.Base(f), pe.outcome, firstLine(pe.errText))
+			if pe.outcome == "ok" && pe.proj != pr {
+				d += "\n    parsed:   " + clipDiff(pr, pe.proj) + "\n    expanded: " + clipDiff(pe.proj, pr)
+			}
+			note(d)
+			nExpanded++
+		}
 	}
 	installHooks(nil)
 	r.Cov("corpus_specs_traced", nCorpus)
+	r.Cov("corpus_specs_expanded_and_reparsed", nExpanded)
 	r.Cov("hook_events", len(col.lines)-len(cases))
 	r.AddEvals(int64(len(cases)))
 	r.AddTraces(int64(len(cases) + nCorpus))
@@ -464,6 +481,17 @@ func Check(r *core.Run) error {
 	}
 	r.Cov("binding_selftest", "out-of-order Delete and unexplained CacheHit rejected")
 	return nil
+}
+
+// clipDiff shows a around the first place where it differs from b.
+func clipDiff(a, b string) string {
+	i := 0
+	for i < len(a) && i < len(b) && a[i] == b[i] {
+		i++
+	}
+	lo := max(0, i-120)
+	hi := min(len(a), i+240)
+	return "..." + a[lo:hi] + "..."
 }
 
 type dirResolver string
